@@ -159,9 +159,12 @@ VRender(e) ==
   ELSE IF a.off = I32Min THEN Judge(e.r, OutErr("LocalTimeType.InvalidUtcOffset"))
   ELSE LET o == NewDt(a.y, a.mo, a.d, a.h, a.mi, a.s, a.ns, RType(a)) IN
        Judge(e.r, IF o.ok = {} THEN o ELSE Out({[text |-> Render(a.y, a.mo, a.d, a.h, a.mi, a.s, a.ns, a.off), dt |-> v] : v \in o.ok}, o.err))
+\* the rendered value's instant: a (seconds, nanoseconds) pair, or a total count of nanoseconds split by the floor rule (C16)
+RtPair(a) == IF Has(a, "N") THEN Split(a.N) ELSE [q |-> a.t, r |-> a.ns]
 VRenderT(e) ==
   IF e.a.off = I32Min THEN Judge(e.r, OutErr("LocalTimeType.InvalidUtcOffset"))
-  ELSE LET o == FromLocal(WToCDS(e.a.t), e.a.ns, RType(e.a)) IN
+  ELSE IF ~WFitsI64(RtPair(e.a).q) THEN Judge(e.r, OutErr("OutOfRange"))
+  ELSE LET o == FromLocal(WToCDS(RtPair(e.a).q), RtPair(e.a).r, RType(e.a)) IN
        Judge(e.r, Out({[text |-> Render(v.y, v.mo, v.d, v.h, v.mi, v.s, v.ns, e.a.off), dt |-> v] : v \in o.ok}, o.err))
        \cup (IF Has(e.r, "ok") /\ ~WellShaped(e.r.ok.text, e.a.off) THEN {"C18-shape"} ELSE {})
        \cup (IF Has(e.r, "ok") /\ WellShaped(e.r.ok.text, e.a.off) /\
